@@ -1036,3 +1036,212 @@ func runLBPoller(e *Env) {
 	e.State = s.pattern(6)
 	vsync.OnDoublePut = nil
 }
+
+// ---------------------------------------------------------------------------------------------
+// concurrent variant: Slice readers handed to other tasks, read and released in any order
+// relative to the parent's reads, Release and Close (the reference counts are the only shared state)
+
+func init() {
+	registerScenario(&Scenario{Name: "lb_conc", Property: "C02", MaxSteps: 20000, Run: runLBConc,
+		Desc: "a parent LinkBuffer owned by one task and 1-3 Slice readers (some cut from Slice readers) handed to other tasks, which read and Release them in any order relative to the parent's reads, Release and Close; yields at the reference-count atomics"})
+}
+
+func runLBConc(e *Env) {
+	s := lbSetup(e)
+	s.root = &lbReader{name: "root", buf: NewLinkBuffer(e.Pick(0, 16, 4096))}
+	b := s.root.buf
+	// fill: several nodes, some zero-copy
+	for i := 0; i < 2+e.Intn(4); i++ {
+		n := e.Pick(1, 7, 16, 40, 300, 5000)
+		if e.Bool() {
+			buf, _ := b.Malloc(n)
+			d := s.gen(n)
+			copy(buf, d)
+			s.root.readable = append(s.root.readable, d...)
+		} else {
+			mem := s.userSlice(n)
+			b.WriteBinary(mem)
+			s.own(mem, "WriteBinary argument")
+			s.root.readable = append(s.root.readable, mem...)
+		}
+		if e.Bool() {
+			b.Flush()
+		}
+	}
+	b.Flush()
+	nkids := 1 + e.Intn(3)
+	type kidT struct {
+		r     *lbReader
+		done  bool
+		fail  string
+	}
+	var kids []*kidT
+	for k := 0; k < nkids && len(s.root.readable) > 0; k++ {
+		n := 1 + e.Intn(len(s.root.readable))
+		src := s.root
+		if len(kids) > 0 && e.Chance(1, 3) && len(kids[len(kids)-1].r.readable) > 1 {
+			src = kids[len(kids)-1].r // nested: a Slice reader cut from a Slice reader
+			n = 1 + e.Intn(len(src.readable)-1)
+		}
+		rd, err := src.buf.Slice(n)
+		if err != nil {
+			s.fail("C01", "read-error", "error/Slice", "Slice(%d) with %d readable: %v", n, len(src.readable), err)
+			return
+		}
+		s.logOp("s%d=%s.Slice(%d)", k, src.name, n)
+		kr := &lbReader{name: fmt.Sprintf("s%d", k), buf: rd.(*LinkBuffer), readable: append([]byte(nil), src.readable[:n]...), isSlice: true}
+		src.readable = src.readable[n:]
+		kids = append(kids, &kidT{r: kr})
+	}
+	e.Summary = fmt.Sprintf("conc cap=%d kids=%d reuse=%v", LinkBufferCap, len(kids), mcache.Reuse)
+	// every task checks its own live results after each of its operations
+	for _, k := range kids {
+		k := k
+		simrt.GoNamed("slice-owner", false, func() {
+			type liveT struct {
+				got, want []byte
+				owner     *LinkBuffer
+			}
+			var live []liveT
+			check := func() bool {
+				for _, l := range live {
+					if !bytes.Equal(l.got, l.want) {
+						k.fail = "a result read from " + k.r.name + " (or a Slice reader cut from it) changed before the Release of its reader"
+						return false
+					}
+				}
+				return true
+			}
+			release := func(b *LinkBuffer) {
+				if b == k.r.buf {
+					s.logOp("%s.Release", k.r.name)
+				} else {
+					s.logOp("%s/sub.Release", k.r.name)
+				}
+				b.Release()
+				kept := live[:0]
+				for _, l := range live {
+					if l.owner != b {
+						kept = append(kept, l)
+					}
+				}
+				live = kept
+			}
+			var subs []*LinkBuffer
+			for len(k.r.readable) > 0 {
+				n := 1 + e.Intn(len(k.r.readable))
+				if e.Chance(1, 4) {
+					// cut a Slice reader here, concurrently with whatever the other owners do
+					s.logOp("%s.Slice(%d)+Next", k.r.name, n)
+					sub, err := k.r.buf.Slice(n)
+					if err != nil {
+						k.fail = fmt.Sprintf("%s.Slice(%d): %v", k.r.name, n, err)
+						break
+					}
+					// documented: Slice also releases the reader it is cut from
+					kept := live[:0]
+					for _, l := range live {
+						if l.owner != k.r.buf {
+							kept = append(kept, l)
+						}
+					}
+					live = kept
+					sl := sub.(*LinkBuffer)
+					p, err := sl.Next(n)
+					if err != nil || !bytes.Equal(p, k.r.readable[:n]) {
+						k.fail = fmt.Sprintf("Slice of %s, Next(%d): err=%v, wrong content", k.r.name, n, err)
+						break
+					}
+					live = append(live, liveT{p, append([]byte(nil), p...), sl})
+					subs = append(subs, sl)
+					k.r.readable = k.r.readable[n:]
+					continue
+				}
+				s.logOp("%s.Next(%d)", k.r.name, n)
+				p, err := k.r.buf.Next(n)
+				if err != nil || !bytes.Equal(p, k.r.readable[:n]) {
+					k.fail = fmt.Sprintf("%s.Next(%d): err=%v, wrong content", k.r.name, n, err)
+					break
+				}
+				live = append(live, liveT{p, append([]byte(nil), p...), k.r.buf})
+				k.r.readable = k.r.readable[n:]
+				if !check() {
+					break
+				}
+				if e.Chance(1, 4) {
+					release(k.r.buf)
+				}
+				if e.Chance(1, 3) {
+					simrt.Sleep(int64(e.Pick(1, 3)) * 100000)
+				}
+			}
+			check()
+			early := e.Bool()
+			if early {
+				release(k.r.buf) // the results of the Slice readers cut from it stay valid
+			}
+			for _, sl := range subs {
+				check()
+				release(sl)
+			}
+			check()
+			if !early {
+				release(k.r.buf)
+			}
+			k.done = true
+		})
+	}
+	parentDone := false
+	parentFail := ""
+	simrt.GoNamed("parent", false, func() {
+		var live [][2][]byte
+		for len(s.root.readable) > 0 && e.Chance(3, 4) {
+			n := 1 + e.Intn(len(s.root.readable))
+			s.logOp("root.Next(%d)", n)
+			p, err := b.Next(n)
+			if err != nil || !bytes.Equal(p, s.root.readable[:n]) {
+				parentFail = fmt.Sprintf("root.Next(%d): err=%v, wrong content", n, err)
+				break
+			}
+			live = append(live, [2][]byte{p, append([]byte(nil), p...)})
+			s.root.readable = s.root.readable[n:]
+			for _, l := range live {
+				if !bytes.Equal(l[0], l[1]) {
+					parentFail = "a result of the parent changed before its Release"
+				}
+			}
+			if e.Chance(1, 3) {
+				s.logOp("root.Release")
+				b.Release()
+				live = nil
+			}
+		}
+		s.logOp("root.Release")
+		b.Release()
+		if e.Bool() {
+			s.logOp("root.Close")
+			b.Close()
+		}
+		parentDone = true
+	})
+	simrt.WaitQuiescentFor(1e9)
+	e.nonTriv = len(kids) > 0
+	if !parentDone {
+		s.fail("C02", "conc-completes", "conc/parent-stuck", "the parent task did not finish")
+	}
+	if parentFail != "" {
+		s.fail("C02", "live-result-intact", "conc/parent", "%s", parentFail)
+	}
+	for _, k := range kids {
+		if !k.done && k.fail == "" {
+			s.fail("C02", "conc-completes", "conc/slice-stuck", "the owner of %s did not finish", k.r.name)
+		}
+		if k.fail != "" {
+			s.fail("C02", "live-result-intact", "conc/slice", "%s", k.fail)
+		}
+	}
+	s.checkLive()
+	s.checkLedger()
+	e.State = fmt.Sprint(len(kids), len(s.root.readable))
+	vsync.OnDoublePut = nil
+}
